@@ -255,8 +255,79 @@ def parseRegex (s : String) : Option (List (Str × Str × Option Bool)) :=
 def canonFText (l : List (Nat × Str)) : List (Nat × Str) :=
   l.map fun (b, t) => (fbits (Float.ofBits b.toUInt64), t)
 
+/-! ### multi-evaluation cases: one tree, several environments -/
+
+/-- canonical value: `n t f N<16 hex> Nnan S<hex> L(v,…)` -/
+partial def parseVal : List Char → Option (Val Float × List Char)
+  | 'N' :: 'n' :: 'a' :: 'n' :: rest => some (.num (0.0 / 0.0), rest)
+  | 'N' :: rest =>
+    (hexNat (String.ofList (rest.take 16))).map fun b => (.num (Float.ofBits b.toUInt64), rest.drop 16)
+  | 'S' :: rest =>
+    let h := rest.takeWhile fun c => c != ',' && c != ')' && c != ';'
+    (hexDecode (String.ofList h)).map fun bs => (.str bs, rest.drop h.length)
+  | 'L' :: '(' :: rest =>
+    let rec go (cs : List Char) (acc : List (Val Float)) : Option (List (Val Float) × List Char) :=
+      match cs with
+      | ')' :: r => some (acc.reverse, r)
+      | ',' :: r => go r acc
+      | cs => match parseVal cs with
+        | some (v, r) => go r (v :: acc)
+        | none => none
+    (go rest []).map fun (vs, r) => (.list (vs.foldr Vals.cons .nil), r)
+  | 'n' :: rest => some (.null, rest)
+  | 't' :: rest => some (.bool true, rest)
+  | 'f' :: rest => some (.bool false, rest)
+  | _ => none
+
+def parseEnv (s : String) : Option (List (Str × Val Float)) :=
+  if s = "-" then some [] else
+  (s.splitOn ";").mapM fun b =>
+    match b.splitOn "=" with
+    | [n, v] => (parseVal v.toList).map fun (x, _) => (strBytes n, x)
+    | _ => none
+
+def envCfg (tb : Tables) (env : List (Str × Val Float)) : Cfg Float :=
+  { cfg tb with var := fun n => match env.find? (·.1 = n) with
+                              | some (_, v) => v
+                              | none => .null }
+
+/-- the outcome of one evaluation of `e` (root assignment: the value bound) -/
+def evalOnce (tb : Tables) (G : Cfg Float) (e : Expr) : String :=
+  match e with
+  | .bin .assign _ (.atom (.ident name)) r =>
+    if hasAssign r then "UNSUPPORTED nested-assign"
+    else match missing tb G r with
+      | some m => m
+      | none =>
+        (match Impl.eval G r with
+         | .val v => "A " ++ hexEnc name ++ " " ++ showVal v
+         | o => showOut o)
+  | _ =>
+    if hasAssign e then "UNSUPPORTED nested-assign"
+    else match missing tb G e with
+      | some m => m
+      | none => showOut (Impl.eval G e)
+
+/-- parse ONCE, then one INDEPENDENT evaluation per environment: the model has no state that
+    could carry anything from one evaluation to the next -/
+def runMulti (conv toks ftext regex envs : String) : String :=
+  match (conv.splitOn ",").mapM String.toInt?, (toks.splitOn ";").mapM parseTok, parseFText ftext, parseRegex regex,
+        (envs.splitOn "|").mapM parseEnv with
+  | some [c1, c2, c3], some ts, some ft, some rx, some es =>
+    let tb : Tables := { convNaN := c1, convPos := c2, convNeg := c3, ftext := canonFText ft, regex := rx }
+    if ts.any (fun t => match t.tk with | .other _ => true | _ => false) then "UNSUPPORTED other-token"
+    else
+      match Impl.parse Ecal.Gen.C03.table ts with
+      | .error .fuel => "FUEL"
+      | .error .unsupported => "UNSUPPORTED parse"
+      | .error _ => "PARSEERR -"
+      | .ok e =>
+        showTree e ++ " " ++ "|".intercalate (es.map fun env => evalOnce tb (envCfg tb env) e) ++ "\tnt=1"
+  | _, _, _, _, _ => "bad-payload"
+
 def runCase (payload : String) : String :=
   match payload.splitOn " " with
+  | ["M", _src, conv, toks, ftext, regex, envs] => runMulti conv toks ftext regex envs
   | [_src, conv, toks, ftext, regex] =>
     match (conv.splitOn ",").mapM String.toInt?, (toks.splitOn ";").mapM parseTok, parseFText ftext, parseRegex regex with
     | some [c1, c2, c3], some ts, some ft, some rx =>
@@ -329,10 +400,27 @@ def specPrints : List String :=
     let src := " ".intercalate ((Spec.pr e .top .none).map tkText)
     hexEnc (strBytes src) ++ " " ++ showTree e
 
+/-- all operator triples in their five shapes (amplified search) -/
+def searchTriples : List Expr :=
+  BinOp.all.flatMap fun o1 => BinOp.all.flatMap fun o2 => BinOp.all.flatMap fun o3 =>
+    let a := numAtom 1; let b := numAtom 2; let c := numAtom 3; let d := numAtom 4
+    [bin' o3 (bin' o2 (bin' o1 a b) c) d, bin' o3 (bin' o1 a (bin' o2 b c)) d,
+     bin' o2 (bin' o1 a b) (bin' o3 c d), bin' o1 a (bin' o3 (bin' o2 b c) d),
+     bin' o1 a (bin' o2 b (bin' o3 c d))]
+
+def printLine (e : Expr) : String :=
+  let src := " ".intercalate ((Spec.pr e .top .none).map tkText)
+  hexEnc (strBytes src) ++ " " ++ showTree e
+
 def run (args : List String) : IO Unit :=
   match args with
   | ["specprints"] => do
     for s in specPrints do
       IO.println s
+  | ["specprints", "big"] => do
+    for s in specPrints do
+      IO.println s
+    for e in searchTriples do
+      IO.println (printLine e)
   | _ => lineLoop runCase
 end Ecal.Drv.C03
